@@ -1,5 +1,6 @@
 """C19 Plotted curves stay inside their track and wrap consistently."""
 import decimal
+import hashlib
 import math
 import os
 import re
@@ -48,9 +49,9 @@ MIN_NONTRIVIAL = {'quick': 60000, 'thorough': 2000000}
 TIMEOUT_S = {'quick': 400, 'thorough': 3300}
 NSHARDS = 16
 N_WRAP = {'quick': 200000, 'thorough': 10000000}
-N_GEN = {'quick': 6, 'thorough': 42}          # generated FILM/PRES files per shard (1-2 films each)
-N_XML = {'quick': 2, 'thorough': 14}          # XML-format LIS files per shard (each plotted with every matching format)
-N_LAS = {'quick': 2, 'thorough': 8}
+N_GEN = {'quick': 6, 'thorough': 170}          # generated FILM/PRES files per shard (1-2 films each)
+N_XML = {'quick': 2, 'thorough': 56}          # XML-format LIS files per shard (each plotted with every matching format)
+N_LAS = {'quick': 2, 'thorough': 32}
 EPS = sys.float_info.epsilon
 TOL_PT = 0.051
 MARGIN_L, MARGIN_R = 24.0, 792.0
@@ -184,18 +185,18 @@ def check_wrap_case(rec, P, case, cap):
     Wf = float(W)
     p, n, d = exact_p(log, ll, rl, v)
     if log:
-        U = decimal.Decimal(lp) + p * decimal.Decimal(float(W))
-        got = decimal.Decimal(pos) + decimal.Decimal(w) * decimal.Decimal(rp - lp)
+        Wd = decimal.Decimal(W.numerator) / decimal.Decimal(W.denominator)
+        U = decimal.Decimal(lp) + p * Wd
+        got = decimal.Decimal(pos) + decimal.Decimal(w) * Wd
         err = abs(float(got - U))
         pa, na, da = abs(float(p)), abs(float(n)), abs(float(d))
+        # v / lL and rL / lL are rounded before the logarithm is taken and each log10 carries its own rounding: the
+        # normalised position inherits (1 + |N|) / |D| + |N| (1 + |D|) / D^2 relative roundings (N, D the two natural logs)
         cond = 4 * EPS * ((1 + na) / da + na * (1 + da) / (da * da)) * Wf
-        # the ratio v / lL and rL / lL are rounded before the logarithm is taken
         tol = 8 * EPS * ((abs(w) + 1) * Wf + abs(lp) + abs(rp)) + cond
         l2p_err = abs(float(decimal.Decimal(l2p) - U))
+        # L2P subtracts two scaled logarithms that may nearly cancel: bounded by the magnitude of each term
         lg = abs(math.log10(ll)) + abs(math.log10(v)) + 1
-        tol_l2p = 8 * EPS * (abs(lp) + abs(rp) + (Wf / (da / math.log(10))) * lg) + cond * (1 + lg / max(na / math.log(10), 1e-300) if na else 1) \
-            if True else 0
-        # L2P subtracts two logarithms that may nearly cancel: bound by the magnitude of each term
         tol_l2p = 16 * EPS * (abs(lp) + abs(rp) + Wf * lg / (da / math.log(10))) + cond
     else:
         U = Fraction(lp) + p * W
@@ -573,6 +574,10 @@ def check_svg(rec, path, what, cap, model=None, film=None, ref_name=None, absent
 
 
 # ------------------------------------------------------------------------------------------------ (b) plots
+def _h(b):
+    return hashlib.blake2b(b, digest_size=12).hexdigest()
+
+
 def _tmp(ctx, name):
     d = os.environ.get('VERIF_SHARD_TMP') or '.'
     os.makedirs(d, exist_ok=True)
@@ -625,14 +630,14 @@ def plot_generated_lis(ctx, k, cap, single_record=False):
                 has = pl.hasDataToPlotLIS(lp, film)
                 r = pl.plotLogPassLIS(fi, lp, lp.xAxisFirstEngVal, lp.xAxisLastEngVal, film, out, frameStep=1, title='Plot <&> "%s"' % fid.decode()) if has else (None, None)
             except Exception as e:  # noqa
-                rec.case(('genplot', data, fid), False, classes=classes + ['plot:raised'])
+                rec.case(('genplot', _h(data), fid), False, classes=classes + ['plot:raised'])
                 if cap['n'] < 20:
                     cap['n'] += 1
                     rec.violation('lis_produces_plot', 'raises', 'plotting generated LIS film %r raised %s: %s' % (fid, type(e).__name__, e),
                                   dict(wit, exception=type(e).__name__, message=str(e)[:300], data_records=-(-len(m.x) // m.frames_per_record)), exc=e)
                 continue
             if not has or r[0] is None or not os.path.exists(out):
-                rec.case(('genplot', data, fid), False, classes=classes + ['plot:none'])
+                rec.case(('genplot', _h(data), fid), False, classes=classes + ['plot:none'])
                 if curves_here and cap['n'] < 20:
                     cap['n'] += 1
                     rec.violation('lis_produces_plot', 'no-plot', 'LIS log pass with curves for film %r produced no plot (hasDataToPlotLIS=%r)' % (fid, has), wit)
@@ -641,7 +646,7 @@ def plot_generated_lis(ctx, k, cap, single_record=False):
             for c in curves_here:
                 absent.setdefault(c.outp.strip().decode('ascii'), set()).update(m.absent.get(c.outp, set()))
             n = check_svg(rec, out, 'generated LIS film %r' % fid, cap, model=m, film=fid, ref_name='REF', absent_by_section=absent, nframes=len(m.x), witness=wit)
-            rec.case(('genplot', data, fid), bool(n), classes=classes,
+            rec.case(('genplot', _h(data), fid), bool(n), classes=classes,
                      sample={'source': 'generated LIS', 'film': repr(fid), 'gcod': repr(fm.gcod), 'scale': fm.scale, 'frames': len(m.x), 'polylines': n,
                              'curves': wit['curves'][:4]})
             if n == 0 and cap['n'] < 20:
@@ -785,14 +790,14 @@ def plot_xml_lis(ctx, k, cap, table, conf):
             has = pl.hasDataToPlotLIS(lp, uid)
             r = pl.plotLogPassLIS(fi, lp, lp.xAxisFirstEngVal, lp.xAxisLastEngVal, uid, out, frameStep=1, title='Format %s <&>' % uid) if has else (None, None)
         except Exception as e:  # noqa
-            rec.case(('xmlplot', data, uid), False, classes=classes + ['plot:raised'])
+            rec.case(('xmlplot', _h(data), uid), False, classes=classes + ['plot:raised'])
             if cap['n'] < 20:
                 cap['n'] += 1
                 rec.violation('lis_produces_plot', 'raises', 'plotting LIS with format %s raised %s: %s' % (uid, type(e).__name__, e),
                               dict(wit, exception=type(e).__name__, message=str(e)[:300]), exc=e)
             continue
         if not has or r[0] is None:
-            rec.case(('xmlplot', data, uid), False, classes=classes + ['plot:none'])
+            rec.case(('xmlplot', _h(data), uid), False, classes=classes + ['plot:none'])
             if cap['n'] < 20:
                 cap['n'] += 1
                 rec.violation('lis_produces_plot', 'no-plot', 'LIS log pass with channels %r configured by format %s produced no plot' % (matching, uid), wit)
@@ -801,7 +806,7 @@ def plot_xml_lis(ctx, k, cap, table, conf):
         use_ref = ref if (ref in matching and inside_all(table[uid].get(ref), refval)) else None
         npoly = check_svg(rec, out, 'LIS with XML format %s' % uid, cap, model=None, ref_name=use_ref,
                           absent_by_section={nm: absent[nm] for nm in matching} if use_ref else None, nframes=n, witness=wit)
-        rec.case(('xmlplot', data, uid), bool(npoly), classes=classes)
+        rec.case(('xmlplot', _h(data), uid), bool(npoly), classes=classes)
         if npoly == 0 and use_ref and cap['n'] < 20:
             cap['n'] += 1
             rec.violation('lis_produces_plot', 'no-curve', 'plot with format %s has no curve polyline although channel %r holds an in-scale constant' % (uid, use_ref), wit)
@@ -929,14 +934,14 @@ def plot_las(ctx, k, cap, table, conf):
             wit['hasDataToPlotLAS'] = bool(has)
             r = pl.plotLogPassLAS(las, las.x_axis_start, las.x_axis_stop, uid, out, frameStep=1, title='LAS <&> %s' % uid)
         except Exception as e:  # noqa
-            rec.case(('lasplot', text, uid), False, classes=classes + ['plot:raised'])
+            rec.case(('lasplot', _h(text.encode()), uid), False, classes=classes + ['plot:raised'])
             if cap['las'] < 12:
                 cap['las'] += 1
                 rec.violation('las_produces_plot', 'raises', 'plotting LAS with format %s raised %s: %s' % (uid, type(e).__name__, e),
                               dict(wit, exception=type(e).__name__, message=str(e)[:300]), exc=e)
             continue
         if r is None or r[0] is None or not os.path.exists(out):
-            rec.case(('lasplot', text, uid), False, classes=classes + ['plot:none'])
+            rec.case(('lasplot', _h(text.encode()), uid), False, classes=classes + ['plot:none'])
             if cap['las'] < 12:
                 cap['las'] += 1
                 rec.violation('las_produces_plot', 'no-plot',
@@ -945,7 +950,7 @@ def plot_las(ctx, k, cap, table, conf):
         use_ref = ref if (ref in matching and inside_all(table[uid].get(ref), refval)) else None
         npoly = check_svg(rec, out, 'LAS with XML format %s' % uid, cap, ref_name=use_ref,
                           absent_by_section={nm: m.absent[nm] for nm in matching} if use_ref else None, nframes=len(m.x), witness=wit)
-        rec.case(('lasplot', text, uid), bool(npoly), classes=classes)
+        rec.case(('lasplot', _h(text.encode()), uid), bool(npoly), classes=classes)
         if npoly == 0 and use_ref and cap['las'] < 12:
             cap['las'] += 1
             rec.violation('las_produces_plot', 'no-curve', 'LAS plot with format %s has no curve polyline although curve %r holds an in-scale constant' % (uid, use_ref), wit)
@@ -997,8 +1002,12 @@ def run_shard(ctx, p):
     import warnings
     logging.disable(logging.CRITICAL)
     warnings.simplefilter('ignore')
+    import random
     from tdv.core import env
     rec = ctx.rec
+    # all randomness derives from (seed, property, part) so that a replay of one shard's parameters repeats it
+    ctx.shard = p['part']
+    ctx.rng = random.Random('%s:%s:%s' % (ctx.seed, ID, p['part']))
     t0 = time.time()
     run_wrap(ctx, p['n_wrap'])
     rec.add('seconds_wrap', round(time.time() - t0, 2))
